@@ -216,7 +216,7 @@ impl Prop for C04 {
 
     fn rule(&self) -> String {
         "cases = (a generated tree up to depth 4 over a name pool with ASCII, Unicode, spaces and a 66-character name (paths > 100 bytes), extensions incl. the empty one, same stem with several extensions, a directory and a file sharing an id, \
-         empty directories, contents empty / small / 20-100 KiB; archive options: member order permutation, directory members all / none / random subset, './' prefix, file members spelled `zz/../<path>`, stored or deflated per member, an outdated earlier member of one path (the last member is the stored one), in-memory or file-backed reader; 1..4 reader threads; in a third of the cases also a copy of the zip archive with one flipped data byte in one stored member: reading that member must fail or give the tree's bytes, never other bytes; and a copy of the tar archive cut inside the data of its last member: the same). \
+         empty directories, contents empty / small / 20-100 KiB; archive options: member order permutation, directory members all / none / random subset, './' prefix, file members spelled `zz/../<path>`, stored or deflated per member, an outdated earlier member of one path (the last member is the stored one), an entry without an id in one directory (archive member `backup.tar.x`, on disk a file with a non UTF-8 name: no source lists it, nothing else changes), in-memory or file-backed reader; 1..4 reader threads; in a third of the cases also a copy of the zip archive with one flipped data byte in one stored member: reading that member must fail or give the tree's bytes, never other bytes; and a copy of the tar archive cut inside the data of its last member: the same). \
          The tree is materialised on disk (FileSystem), as zip, as tar and - by running the embed! macro's own expansion code on the directory and evaluating the produced table - as Embedded (as the macro writes the table, and the same table with its lists in another order). \
          Oracle = the generated tree itself: read gives the stored bytes, read_dir lists every direct child exactly once with kind/id/ext, exists agrees, listed entries are readable, absent entries (fresh ids, wrong extension, wrong kind) do not exist and fail to read (NotFound unless the other kind occupies the path). \
          non-trivial = a tree with >= 2 levels and a directory without an archive member of its own, or a non-identity member order; distinct = different canonical JSON"
@@ -249,7 +249,7 @@ impl Prop for C04 {
             .map(|k| {
                 to_case(&Case {
                     tree: TreeSpec { entries: Vec::new() },
-                    opts: ArchOpts { order: 0, dir_members: DirMembers::All, dot_prefix: false, deflate_mask: 0, file_backed: false, stale_duplicate: None, damage: None, dotdot_mask: 0 },
+                    opts: ArchOpts { order: 0, dir_members: DirMembers::All, dot_prefix: false, deflate_mask: 0, file_backed: false, stale_duplicate: None, damage: None, dotdot_mask: 0, junk: None },
                     threads: 2,
                     fixed: Some(k),
                 })
@@ -304,6 +304,7 @@ impl Prop for C04 {
         std::fs::create_dir_all(&root).expect("mkdir");
         let res = (|| -> Result<(), String> {
             m.write_disk(&root).map_err(|e| format!("harness: writing the tree to disk failed: {e}"))?;
+            trees::write_junk_on_disk(&m, &c.opts, &root);
             // (a) filesystem
             let fs = FileSystem::new(&root).map_err(|e| format!("harness: FileSystem::new failed: {e}"))?;
             check_concurrently("filesystem", &fs, &m, c.threads, &mut out);
@@ -462,6 +463,9 @@ impl Prop for C04 {
         }
         if c.opts.dot_prefix {
             out.label("dot-prefix");
+        }
+        if c.opts.junk.is_some() {
+            out.label("entry-without-id");
         }
         if c.opts.stale_duplicate.is_some() && !m.files.is_empty() {
             out.label("duplicate-member");
